@@ -10,7 +10,10 @@ Trace == ndJsonDeserialize(IOEnv.TRACE)
 VARIABLES l, bad
 tvars == <<l, bad>>
 
-TablesOf(w) == [b \in 1..Len(w.blocks) |-> w.blocks[b].symbols]
+\* a caller-supplied base symbol table (WithSymbols / Unmarshaler{Symbols}) behaves like the table of a block 0
+TablesOf(e) == <<e.base>> \o [b \in 1..Len(e.wire.blocks) |-> e.wire.blocks[b].symbols]
+
+
 
 RECURSIVE DTerm(_, _, _)
 DTerm(t, tbs, b) ==
@@ -43,14 +46,24 @@ CBlock(c) == [context |-> c.context,
               rules |-> [i \in 1..Len(c.rules) |-> CRule(c.rules[i])],
               checks |-> [i \in 1..Len(c.checks) |-> [j \in 1..Len(c.checks[i]) |-> CRule(c.checks[i][j])]]]
 
+\* GetBlockID: index (authority = 0) of the first block whose facts contain the given fact; -1 when there is none
+FirstBlockWith(content, p) ==
+    LET hits == {b \in 1..Len(content.blocks) : \E i \in 1..Len(content.blocks[b].facts) : CPred(content.blocks[b].facts[i]) = p}
+    IN IF hits = {} THEN 0 - 1 ELSE (CHOOSE b \in hits : \A c \in hits : b <= c) - 1
+
 EventOK(e) ==
-    LET tbs == TablesOf(e.wire) IN
+    LET tbs == TablesOf(e) IN
     /\ Len(e.wire.blocks) = Len(e.content.blocks)
     /\ WellFormedTables(tbs)
     /\ \A b \in 1..Len(e.wire.blocks) :
           /\ e.wire.blocks[b].version = 3
           /\ e.wire.blocks[b].unknown = 0
-          /\ DBlock(e.wire.blocks[b], tbs, b) = CBlock(e.content.blocks[b])
+          /\ DBlock(e.wire.blocks[b], tbs, b + 1) = CBlock(e.content.blocks[b])
+    \* accessors of the reloaded token: GetBlockID for every fact (and one absent fact), GetContext, Checks
+    /\ \A k \in 1..Len(e.lookups) :
+          e.lookups[k].got = FirstBlockWith(e.content, CPred(e.lookups[k].fact))
+    /\ e.context = e.content.blocks[1].context
+    /\ e.nchecks = [b \in 1..Len(e.content.blocks) |-> Len(e.content.blocks[b].checks)]
 
 TInit == l = 1 /\ bad = <<>>
 TNext == /\ l <= Len(Trace) /\ l' = l + 1
